@@ -144,6 +144,7 @@ func rulesC03(c *Ctx) {
 	c03EvictRepaired(c)
 	c03Round4(c)
 	pendingFallbackRule(c, "C03.sibling")
+	writeLogModeRule(c, "C03.mutate")
 	childNodeReadRule(c, "C03.evict")
 
 	// ---- (b) transaction-context discipline
